@@ -107,6 +107,9 @@ func synthRoutes(r *rng, idx int, withVarForm bool) (*modSpec, []routeIntent) {
 			pathExpr = fmt.Sprintf("\"/api/caf\\u00e9/\\x6d/%d/\\x71\"", i)
 		case 0:
 			in.URL = fmt.Sprintf("/lit/%d", i)
+			if i%2 == 1 { // shares its first letters with /lit/ without being below it
+				in.URL = fmt.Sprintf("/lit%d", i)
+			}
 			pathExpr = fmt.Sprintf("%q", in.URL)
 		case 1:
 			in.URL = "local_const"
@@ -422,7 +425,7 @@ func coqEndpoint(o endpointObs) string {
 func runC13(e *env) {
 	e.m.Rule = "seeded synthesised route files over a stand-in echo package: 3..10 registrations x 4 verbs x path expression forms (literal, local / package / imported constant, concatenations) x handler forms (method on pointer or value variable, function, imported function or method, literal) " +
 		"x bodies made of random subsets/orders of Bind, QueryParam (plain, multi-assign), QueryParamBool, QueryParamInt64, generic QueryParamInt, FormValue, FormFile, FormValueJSON, JSON, JSONPretty, Blob, nil returns, ':=' and 'var =' forms, plus non-registrations (unknown verb, plain calls); " +
-		"each file is parsed with three prefix filters; one evaluation = one (file, prefix) pair; non-trivial = at least 3 endpoints kept"
+		"each file is parsed with five prefix filters; one evaluation = one (file, prefix) pair; non-trivial = at least 3 endpoints kept"
 	e.m.Extra = map[string]interface{}{"mismatch_means": "property"}
 	n := 12
 	if e.thorough() {
@@ -438,7 +441,9 @@ func runC13(e *env) {
 	for i := 0; i < n; i++ {
 		vf := i%3 == 2
 		m, in := synthRoutes(e.r, i, vf)
-		for _, p := range []string{"", "/inner_const/", "/api"} {
+		// filters: none, a prefix ending with a slash that other URLs share up to the slash only, a plain prefix, the
+		// bare slash (URLs built from a constant have no leading slash)
+		for _, p := range []string{"", "/inner_const/", "/api", "/lit/", "/"} {
 			jobs = append(jobs, job{m, in, p, vf})
 		}
 	}
